@@ -246,6 +246,7 @@ type packOut struct {
 	raw     []byte
 	panic   interface{}
 	timeout bool
+	errText string // the error Pack returned ("" = none)
 }
 
 func decodeSlug(data []byte) ([]UEntry, []int64, error) {
@@ -299,6 +300,9 @@ func runPack(src string, w io.Writer, buf *bytes.Buffer, deref, ignore bool, all
 		m, err := p.Pack(src, w)
 		o.class = classify(err)
 		o.meta = m
+		if err != nil {
+			o.errText = err.Error()
+		}
 	}()
 	select {
 	case o := <-done:
@@ -342,12 +346,23 @@ func canonPack(o packOut) string {
 var pNames = []string{"a", "b", "c.tf", "d", "e", ".git", ".terraform", "modules", "x y", "é", "foo", "bar", ".terraformignore-not", "z", "..data", "...", "..2024", "-dash", ".hidden",
 	// a backslash is an ordinary file-name character here (seed C03-g: the path given to the rules with
 	// '\\' turned into '/'): inner, leading, trailing, several; each is ONE path segment
-	`d\e`, `sub\id.pem`, `logs\notes.txt`, `\b`, `foo\`, `d\e\a`}
+	`d\e`, `sub\id.pem`, `logs\notes.txt`, `\b`, `foo\`, `d\e\a`,
+	// control characters are ordinary file-name characters (seed C20-h: Meta.Files reported without
+	// them, the header keeping them): LF, CR, TAB, BEL, an ESC sequence, DEL, a C1 control (U+0085, two
+	// bytes of valid UTF-8: a PAX record)
+	"notes\nsecond line.txt", "cr\rname", "tab\tdir", "bel\a.tf", "esc\x1b[31m", "del\x7f", "nel\u0085x",
+	// names that a starred rule below covers only with its '*' standing for nothing (seed C10-h)
+	"terraform.tfstate", ".auto.tfvars", "cache"}
 var pRuleFiles = []string{"", "foo\n", "d/\n", "*.tf\n", "d/\n!d/e\n", "/a\n", "**/b\n", "d/*\n", "!foo\nfoo/\n", "# c\n\n  \n!\nbar/\n", "e\n!e/a\n", "a+b\n", "d/**/a\n",
 	// verdicts that depend on where a segment ends, for names with a backslash (patterns have none:
 	// a backslash in a PATTERN is outside the modelled fragment): anchored, directory rule, '?' and '*'
 	// next to the backslash
-	"/*.pem\nlogs/\n", "?b\n/d*\n", "d/\n/f?o?\n"}
+	"/*.pem\nlogs/\n", "?b\n/d*\n", "d/\n/f?o?\n",
+	// a '*' that has to match zero characters (seed C10-h: '[^/]+' emitted for a single '*')
+	"terraform.tfstate*\n*.auto.tfvars\n", "cache*/\n", "*c.tf\nfoo*\n", "d/*a\n*z*\n", "/b*\n!/b?*\n",
+	// a line repeated after a rule of the other polarity: the LAST occurrence decides (seed C03-h:
+	// repeats dropped, the first occurrence kept)
+	"*.tf\n!c.tf\n*.tf\n", "foo\n!foo\nfoo\n", "!e\ne\n!e\n", "a\n!d/a\n  a\n", "!/b\n# later\nb\n!/b\n", "z\nbar\n!z\n!bar\nz\nbar\n"}
 
 // Trees in which a dereferenced directory leads back to itself are generated for C19 only: on code
 // without the F26 repair they kill the whole lane process (stack overflow), which would turn the
@@ -667,7 +682,73 @@ func emptyRuleFileCase(deref bool, rules string) *PCase {
 	}}
 }
 
+// a '*' that has to match ZERO characters next to names for which it matches some (seed C10-h)
+func emptyStarCase(deref bool, rules string) *PCase {
+	return &PCase{Src: "@ARENA@/p/src", Deref: deref, Ignore: true, Nodes: []PNode{
+		{Path: "p", Kind: "d", Perm: 0755, Mtime: 1300000000e9},
+		{Path: "p/src", Kind: "d", Perm: 0755, Mtime: 1300000001e9},
+		{Path: "p/src/main.tf", Kind: "f", Perm: 0644, Mtime: 1300000010e9, Data: "m"},
+		{Path: "p/src/terraform.tfstate", Kind: "f", Perm: 0600, Mtime: 1300000010e9, Data: "state"},
+		{Path: "p/src/terraform.tfstate.backup", Kind: "f", Perm: 0600, Mtime: 1300000010e9, Data: "older state"},
+		{Path: "p/src/.auto.tfvars", Kind: "f", Perm: 0600, Mtime: 1300000010e9, Data: "password"},
+		{Path: "p/src/prod.auto.tfvars", Kind: "f", Perm: 0600, Mtime: 1300000010e9, Data: "prod password"},
+		{Path: "p/src/cache", Kind: "d", Perm: 0755, Mtime: 1300000010e9},
+		{Path: "p/src/cache/blob", Kind: "f", Perm: 0644, Mtime: 1300000010e9, Data: "blob"},
+		{Path: "p/src/cache-old", Kind: "d", Perm: 0755, Mtime: 1300000010e9},
+		{Path: "p/src/cache-old/blob", Kind: "f", Perm: 0644, Mtime: 1300000010e9, Data: "old blob"},
+		{Path: "p/src/modules", Kind: "d", Perm: 0755, Mtime: 1300000010e9},
+		{Path: "p/src/modules/a", Kind: "d", Perm: 0755, Mtime: 1300000010e9},
+		{Path: "p/src/modules/a/a.tf", Kind: "f", Perm: 0644, Mtime: 1300000010e9, Data: "a"},
+		{Path: "p/src/modules/a/scratch", Kind: "f", Perm: 0644, Mtime: 1300000010e9, Data: "s"},
+		{Path: "p/src/modules/a/scratch.txt", Kind: "f", Perm: 0644, Mtime: 1300000010e9, Data: "s.txt"},
+		{Path: "p/src/.terraformignore", Kind: "f", Perm: 0644, Mtime: 1400000000e9, Data: rules},
+	}}
+}
+
+// a rule line repeated after a rule of the other polarity: the last occurrence decides (seed C03-h)
+func repeatedLineCase(deref bool, rules string) *PCase {
+	return &PCase{Src: "@ARENA@/p/src", Deref: deref, Ignore: true, Nodes: []PNode{
+		{Path: "p", Kind: "d", Perm: 0755, Mtime: 1300000000e9},
+		{Path: "p/src", Kind: "d", Perm: 0755, Mtime: 1300000001e9},
+		{Path: "p/src/main.tf", Kind: "f", Perm: 0644, Mtime: 1300000010e9, Data: "m"},
+		{Path: "p/src/certs", Kind: "d", Perm: 0755, Mtime: 1300000010e9},
+		{Path: "p/src/certs/public.pem", Kind: "f", Perm: 0644, Mtime: 1300000010e9, Data: "public"},
+		{Path: "p/src/certs/private.pem", Kind: "f", Perm: 0600, Mtime: 1300000010e9, Data: "private"},
+		{Path: "p/src/keep.log", Kind: "f", Perm: 0644, Mtime: 1300000010e9, Data: "kept"},
+		{Path: "p/src/x.log", Kind: "f", Perm: 0644, Mtime: 1300000010e9, Data: "x"},
+		{Path: "p/src/.terraformignore", Kind: "f", Perm: 0644, Mtime: 1400000000e9, Data: rules},
+	}}
+}
+
+// names with control characters (seed C20-h): files, a directory with a file below it, link names and
+// link targets; valid UTF-8, so the case goes to the model as well
+func controlNamesCase(deref, ignore bool) *PCase {
+	c := &PCase{Src: "@ARENA@/p/src", Deref: deref, Ignore: ignore, Nodes: []PNode{
+		{Path: "p", Kind: "d", Perm: 0755, Mtime: 1300000000e9},
+		{Path: "p/src", Kind: "d", Perm: 0755, Mtime: 1300000001e9},
+		{Path: "p/src/main.tf", Kind: "f", Perm: 0644, Mtime: 1300000010e9, Data: "m"},
+		{Path: "p/src/notes\nsecond line.txt", Kind: "f", Perm: 0644, Mtime: 1300000011e9, Data: "lf"},
+		{Path: "p/src/esc\x1b[31mred\x1b[0m.tf", Kind: "f", Perm: 0600, Mtime: 1300000012e9, Data: "esc"},
+		{Path: "p/src/tab\tdir", Kind: "d", Perm: 0750, Mtime: 1300000013e9},
+		{Path: "p/src/tab\tdir/bel\a", Kind: "f", Perm: 0644, Mtime: 1300000014e9, Data: "bel"},
+		{Path: "p/src/tab\tdir/empty", Kind: "f", Perm: 0644, Mtime: 1300000015e9, Data: ""},
+		{Path: "p/src/cr\rlink", Kind: "l", Data: "notes\nsecond line.txt"},
+		{Path: "p/src/del\x7f", Kind: "f", Perm: 0644, Mtime: 1300000016e9, Data: "del"},
+		{Path: "p/src/nel\u0085x", Kind: "f", Perm: 0644, Mtime: 1300000017e9, Data: "c1"},
+		{Path: "p/src/to-bel", Kind: "l", Data: "tab\tdir/bel\a"},
+	}}
+	if ignore {
+		c.Nodes = append(c.Nodes, PNode{Path: "p/src/.terraformignore", Kind: "f", Perm: 0644, Mtime: 1400000000e9, Data: "*.bak\n/del?\n"})
+	}
+	return c
+}
+
 var packCorpus = []*PCase{
+	controlNamesCase(false, false), controlNamesCase(true, false), controlNamesCase(false, true),
+	emptyStarCase(false, "terraform.tfstate*\n*.auto.tfvars\ncache*/\nmodules/*/scratch*\n"), emptyStarCase(true, "terraform.tfstate*\n*.auto.tfvars\ncache*/\nmodules/*/scratch*\n"),
+	emptyStarCase(false, "/terraform.tfstate*\n/*.auto.tfvars\n!prod*.auto.tfvars\n**/scratch*\n"),
+	repeatedLineCase(false, "*.pem\n!certs/public.pem\n*.pem\n"), repeatedLineCase(true, "*.pem\n!certs/public.pem\n*.pem\n"), repeatedLineCase(false, "!keep.log\n*.log\n!keep.log\n"),
+	repeatedLineCase(false, "*.pem\n*.log\n!certs/public.pem\n!keep.log\n  *.pem\n*.log\n"),
 	backslashNamesCase(false, "# keys at the top level, the log directory\n/*.pem\nlogs/\n"), backslashNamesCase(true, "/*.pem\nlogs/\n"), backslashNamesCase(false, "/su?/*.pem\n?lead\ntrail*/x*\n!logs\n"),
 	rawNamesCase(false, false), rawNamesCase(true, true), rawNamesCase(false, true),
 	emptyRuleFileCase(false, ""), emptyRuleFileCase(true, ""), emptyRuleFileCase(false, "\n"),
@@ -699,12 +780,42 @@ func packRuleFile(c *PCase) string {
 	return ""
 }
 
+// rulesFromTree: rule lines made from the name of a node of the tree below p/src: a rule with one '*' that
+// covers the node only if the '*' matches zero characters (seed C10-h), or a line repeated after a rule
+// of the other polarity, all three covering the node (seed C03-h). "" if no name can be written into a rule.
+func rulesFromTree(r *Rng, nodes []PNode) string {
+	var cands []PNode
+	for _, n := range nodes {
+		if rel := strings.TrimPrefix(n.Path, "p/src/"); rel != n.Path && n.Kind != "s" && safeRuleName(rel) {
+			cands = append(cands, n)
+		}
+	}
+	if len(cands) == 0 {
+		return ""
+	}
+	n := cands[r.Intn(len(cands))]
+	rel := strings.TrimPrefix(n.Path, "p/src/")
+	switch {
+	case n.Kind == "d" && r.Chance(70):
+		return emptyStarRuleFor(r, rel) + "/\n"
+	case r.Bool():
+		return emptyStarRuleFor(r, rel) + "\n"
+	}
+	return repeatedRuleFor(r, rel)
+}
+
 func genPCase(r *Rng) *PCase {
 	c := &PCase{Nodes: genTree(r), Src: "@ARENA@/p/src", Deref: r.Chance(40), Ignore: r.Chance(50)}
 	if c.Ignore && r.Chance(60) {
 		switch x := r.Intn(100); {
 		case x < 88:
-			c.Nodes = append(c.Nodes, PNode{Path: "p/src/.terraformignore", Kind: "f", Perm: 0644, Mtime: 1400000000e9, Data: r.Pick(pRuleFiles)})
+			rules := r.Pick(pRuleFiles)
+			if r.Chance(30) {
+				if d := rulesFromTree(r, c.Nodes); d != "" {
+					rules = d
+				}
+			}
+			c.Nodes = append(c.Nodes, PNode{Path: "p/src/.terraformignore", Kind: "f", Perm: 0644, Mtime: 1400000000e9, Data: rules})
 		case x < 92:
 			// a rule file that cannot be read as a file: a directory of that name (default rules apply)
 			c.Nodes = append(c.Nodes, PNode{Path: "p/src/.terraformignore", Kind: "d", Perm: 0755, Mtime: 1400000000e9})
@@ -725,7 +836,7 @@ func genPCase(r *Rng) *PCase {
 
 func init() {
 	lanes["pack"] = func(cfg *Config, rep *Report) {
-		rep.Rule = "source trees of 1..9 nodes below src (files with modes 0000-0777 and .0/.4/.5/.6 s mtimes, directories incl. empty and read-only, fifos, links: in-tree relative/absolute, dangling, '..' detours, to a prefix-sharing sibling, to an outside file / directory / chain) next to outside decoys, x {dereference} x {ignore on/off with 16 rule files} x allow-lists; names incl. backslashes (ordinary characters: one segment) under anchored / directory / wildcard rules; 4% of the trees with names, link names and link targets that are not valid UTF-8 (oracle only: Meta vs headers and the round trip, byte for byte); corpus: backslash names, non-UTF-8 names, .git / .terraform / .terraform/modules content next to a rule file of zero bytes; non-trivial = has a link, a rule file or a special file; distinct by (tree, options)"
+		rep.Rule = "source trees of 1..9 nodes below src (files with modes 0000-0777 and .0/.4/.5/.6 s mtimes, directories incl. empty and read-only, fifos, links: in-tree relative/absolute, dangling, '..' detours, to a prefix-sharing sibling, to an outside file / directory / chain) next to outside decoys, x {dereference} x {ignore on/off with 27 rule files, incl. a '*' that has to match zero characters and a line repeated after a rule of the other polarity; 30% of the rule files made from a name of the tree in one of these two shapes} x allow-lists; names incl. backslashes (ordinary characters: one segment) under anchored / directory / wildcard rules, and control characters (LF, CR, TAB, BEL, ESC, DEL, U+0085); 4% of the trees with names, link names and link targets that are not valid UTF-8 (oracle only: Meta vs headers and the round trip, byte for byte); corpus: control-character names, empty-'*' rules, repeated rule lines, backslash names, non-UTF-8 names, .git / .terraform / .terraform/modules content next to a rule file of zero bytes; non-trivial = has a link, a rule file or a special file; distinct by (tree, options)"
 		packWithCycles = cfg.Prop == "C19"
 		corpus := packCorpus
 		if packWithCycles {
@@ -1380,7 +1491,7 @@ func (s *slowWriter) Write(p []byte) (int, error) {
 
 func init() {
 	lanes["pack-spelling"] = func(cfg *Config, rep *Report) {
-		rep.Rule = "one generated tree per case, packed through: the absolute path (baseline), relative spellings from two working directories ('p/src', './p/src/.', 'p/./src', 'src' from p), a trailing slash, a '..' detour, an absolute root link, a relative root link (from its own directory and from elsewhere), a chained root link, 'link/', the source directory below a linked parent directory (relative / absolute / chained link, absolute and relative spelling), a relative spelling from a working directory entered through a link ($PWD spelled with the link); after parsing rule files that begin with a negation; and with four Pack calls running concurrently; per tree one generated history (2-6 Pack / parse steps over 1-3 directories whose rule files share pattern texts with and without a later negation and are replaced in place, deleted, re-created) whose last Pack is repeated in a fresh process; for every fourth tree the package-level Pack held at its first write while another package-level Pack with the other dereference setting runs; non-trivial = every variant; distinct by (tree, variant)"
+		rep.Rule = "one generated tree per case, packed through: the absolute path (baseline), relative spellings from two working directories ('p/src', './p/src/.', 'p/./src', 'src' from p), a trailing slash, a '..' detour, an absolute root link, a relative root link (from its own directory and from elsewhere), a chained root link, 'link/', the source directory below a linked parent directory (relative / absolute / chained link, absolute and relative spelling), a relative spelling from a working directory entered through a link ($PWD spelled with the link); after parsing rule files that begin with a negation; and with four Pack calls running concurrently; the linked-parent spellings of a tree whose links are all relative and in-tree are also judged for C02 (Pack succeeds and stores links as links); per tree a dereferencing Packer whose first Pack failed inside a dereferenced out-of-tree directory (writer fault at two offsets inside a 128 KiB file; a dangling link there) then packs the same, the repaired and another tree, each compared with a fresh Packer; per tree one generated history (2-6 Pack / parse steps over 1-3 directories whose rule files share pattern texts with and without a later negation and are replaced in place, deleted, re-created) whose last Pack is repeated in a fresh process; for every fourth tree the package-level Pack held at its first write while another package-level Pack with the other dereference setting runs; non-trivial = every variant; distinct by (tree, variant)"
 		r := NewRng(cfg.Seed)
 		work, err := filepath.EvalSymlinks(cfg.Work)
 		if err != nil {
@@ -1458,7 +1569,31 @@ func init() {
 				{"cwd-through-link", arena + "/lnkparent", "src", "", true},
 				{"cwd-through-link-dot", arena + "/lnkparent/src", ".", "", true},
 			}
+			// a tree of regular files, directories and relative links that stay inside it (lexically, at
+			// their own position): whatever the spelling of the source, it must pack, and its links must be
+			// stored as links (C02; seed C02-h: the root resolved through the file system, the walked paths
+			// left as they were spelled, so that every in-tree link counted as external)
+			onlyInTreeRelLinks := true
+			for _, n := range c.Nodes {
+				if n.Kind != "l" || !strings.HasPrefix(n.Path, "p/src/") {
+					continue
+				}
+				if strings.HasPrefix(n.Data, "/") || strings.HasPrefix(n.Data, "@") {
+					onlyInTreeRelLinks = false
+					continue
+				}
+				// inside at every step of the target (a target that leaves the source directory and comes back
+				// through the directory's own name, '../src/a', is not counted as in-tree)
+				cur := filepath.Join("/A", filepath.Dir(n.Path))
+				for _, comp := range strings.Split(n.Data, "/") {
+					cur = filepath.Join(cur, comp)
+					if !within("/A/p/src", cur) {
+						onlyInTreeRelLinks = false
+					}
+				}
+			}
 			var base string
+			var baseOut packOut
 			for vi, v := range vs {
 				if vi == 3 {
 					// history: rule files that begin with a negation were parsed earlier in this process
@@ -1489,6 +1624,7 @@ func init() {
 				rep.Count("variant:" + v.name)
 				if vi == 0 {
 					base = canon
+					baseOut = out
 					continue
 				}
 				if absInTreeLink && (strings.HasPrefix(v.name, "parent-link") || v.pwd) {
@@ -1505,6 +1641,29 @@ func init() {
 				}
 				if canon != base {
 					rep.AddOracle(OracleFailure{Property: "C16", Lane: "pack-spelling", What: fmt.Sprintf("slug for spelling %q (cwd %q) differs from the slug for the absolute path (result %s)", in["src"], in["cwd"], out.class), Input: in, Signature: v.sig, ReqIdx: len(reqs)})
+				}
+				if (strings.HasPrefix(v.name, "parent-link") || v.pwd) && onlyInTreeRelLinks && baseOut.class == "ok" {
+					rep.Count("c02:linked-parent spelling of a tree with in-tree relative links only")
+					const c02 = "a tree of regular files, directories and relative in-tree links must pack and round-trip whatever the spelling of the source: "
+					if out.class != "ok" {
+						rep.AddOracle(OracleFailure{Property: "C02", Lane: "pack-spelling", What: fmt.Sprintf(c02+"Pack of %q (cwd %q: the source directory reached through a symlinked ancestor) fails (%s: %s) although the same tree packs by its physical path", in["src"], in["cwd"], out.class, strings.ReplaceAll(out.errText, arena, "<arena>")), Input: in, Signature: v.sig, ReqIdx: len(reqs)})
+					} else {
+						stored := map[string]bool{}
+						for _, e := range out.entries {
+							if e.Typ == tar.TypeSymlink {
+								stored[e.Name] = true
+							}
+						}
+						var copies []string
+						for _, e := range baseOut.entries {
+							if e.Typ == tar.TypeSymlink && !stored[e.Name] {
+								copies = append(copies, showName(e.Name))
+							}
+						}
+						if len(copies) > 0 {
+							rep.AddOracle(OracleFailure{Property: "C02", Lane: "pack-spelling", What: fmt.Sprintf(c02+"Pack of %q (cwd %q: the source directory reached through a symlinked ancestor) stores the link(s) %s as copies of their targets (links when the tree is packed by its physical path)", in["src"], in["cwd"], strings.Join(copies, ", ")), Input: in, Signature: v.sig, ReqIdx: len(reqs)})
+						}
+					}
 				}
 			}
 			// one Packer value reused for two Pack calls on different roots (options incl. a relative
@@ -1600,6 +1759,8 @@ func init() {
 				}
 				os.RemoveAll(hdir)
 			}
+			// history (a2): a Packer whose previous Pack failed INSIDE a dereferenced out-of-tree directory (seed C16-h)
+			runFailedInsideDeref(rep, filepath.Join(work, fmt.Sprintf("g%05d", a)), c, a)
 			// history (b): the rule file of a directory is replaced by another of the same length and the
 			// same modification time between two Packs of the same path; the second slug must be what the
 			// same tree gives at another path (seed C16-d: rules cached by path, size and mtime)
@@ -1785,6 +1946,140 @@ func init() {
 			runOne(a, c, false, hs)
 		}
 		rep.Compare(cfg.Driver, reqs, impl, human)
+	}
+}
+
+// runFailedInsideDeref (history a2): one Packer made with DereferenceSymlinks() packs a tree whose link
+// 'lib' leads to a directory outside it. The first Pack FAILS while the walk is inside that directory:
+// (1) the writer reports a fault while a large incompressible file of that directory is being copied
+// (two fault offsets), (2) the directory holds a dangling link. Afterwards the same Packer packs the
+// unchanged tree with a healthy writer (1), the repaired tree and another tree that links to the same
+// directory (2); each result must be what a fresh Packer gives (seed C16-h: the stack of directories
+// being archived in place of a link kept in the Packer and unwound on the success path only, so that
+// every later visit of that directory is taken for a symlink cycle).
+func runFailedInsideDeref(rep *Report, hdir string, c *PCase, a int) {
+	defer os.RemoveAll(hdir)
+	put := func(rel, data string, perm os.FileMode) {
+		p := filepath.Join(hdir, rel)
+		os.MkdirAll(filepath.Dir(p), 0755)
+		os.WriteFile(p, []byte(data), perm)
+	}
+	br := NewRng(0xC16A)
+	big := make([]byte, 128<<10)
+	for i := 0; i+8 <= len(big); i += 8 {
+		v := br.Next()
+		for k := 0; k < 8; k++ {
+			big[i+k] = byte(v >> (8 * k))
+		}
+	}
+	put("config/a_main.tf", "main", 0644)
+	put("config/z_outputs.tf", "outputs", 0644)
+	os.Symlink("../shared", filepath.Join(hdir, "config", "lib"))
+	put("shared/blob.bin", string(big), 0644)
+	put("shared/mod.tf", "mod", 0644)
+	put("other/main.tf", "other", 0644)
+	os.Symlink("../shared", filepath.Join(hdir, "other", "vendor"))
+	// variant (2): the outside directory holds a dangling link
+	put("config2/a_main.tf", "main", 0644)
+	os.Symlink("../shared2", filepath.Join(hdir, "config2", "lib"))
+	put("shared2/mod.tf", "mod", 0644)
+	os.Symlink("generated.tf", filepath.Join(hdir, "shared2", "zz_generated"))
+	put("other2/main.tf", "other", 0644)
+	os.Symlink("../shared2", filepath.Join(hdir, "other2", "vendor"))
+
+	newP := func() *slug.Packer { p, _ := slug.NewPacker(slug.DereferenceSymlinks()); return p }
+	// class, error text (scratch path replaced) and one line per entry
+	listing := func(err error, raw []byte) string {
+		if err != nil {
+			return classify(err) + ": " + strings.ReplaceAll(err.Error(), hdir, "<dir>")
+		}
+		ents, sizes, derr := decodeSlug(raw)
+		lines := []string{"ok"}
+		if derr != nil {
+			lines[0] = "ok-but-unreadable"
+		}
+		for k, e := range ents {
+			h := sha256.Sum256([]byte(e.Body))
+			lines = append(lines, fmt.Sprintf("%q type=%c mode=%o size=%d link=%q sha256=%s", e.Name, e.Typ, e.Mode, sizes[k], e.Link, hex.EncodeToString(h[:8])))
+		}
+		return strings.Join(lines, "\n")
+	}
+	type result struct {
+		listing string
+		err     error
+		meta    *slug.Meta
+	}
+	pack := func(p *slug.Packer, rel string, w io.Writer) (res result) {
+		done := make(chan result, 1)
+		go func() {
+			var r result
+			defer func() {
+				if x := recover(); x != nil {
+					r.err = fmt.Errorf("panic: %v", x)
+					r.listing = "panic"
+				}
+				done <- r
+			}()
+			var buf bytes.Buffer
+			out := w
+			if out == nil {
+				out = &buf
+			}
+			r.meta, r.err = p.Pack(filepath.Join(hdir, rel), out)
+			r.listing = listing(r.err, buf.Bytes())
+		}()
+		select {
+		case res = <-done:
+		case <-time.After(20 * time.Second):
+			res = result{listing: "timeout", err: fmt.Errorf("timeout")}
+		}
+		return res
+	}
+	first := func(l string) string { return strings.SplitN(l, "\n", 2)[0] }
+	judge := func(how, what string, got, want result) {
+		kind := "writer-fault"
+		if strings.Contains(how, "dangling") {
+			kind = "dangling-link"
+		}
+		if got.listing == want.listing {
+			rep.Count("failed-inside-deref:" + kind + ":same as a fresh Packer")
+			return
+		}
+		rep.Count("failed-inside-deref:" + kind + ":differs")
+		in := map[string]interface{}{"case": c, "step": "failed-inside-dereferenced-dir", "first_pack": how, "then": what}
+		rep.AddOracle(OracleFailure{Property: "C16", Lane: "pack-spelling", What: fmt.Sprintf("output depends on what earlier Pack happened on the Packer: after a Pack that failed inside a dereferenced out-of-tree directory (%s), the same Packer (DereferenceSymlinks) gives for %s: %q; a fresh Packer gives %q (%s)", how, what, first(got.listing), first(want.listing), firstDiffLine(got.listing, want.listing)), Input: in})
+	}
+	// (1) writer fault while shared/blob.bin is copied
+	want := pack(newP(), "config", nil)
+	wantOther := pack(newP(), "other", nil)
+	if want.err != nil {
+		rep.Count("failed-inside-deref:reference Pack fails")
+		return
+	}
+	for _, k := range []int{4 << 10, 2048 + (a*7919)%(100<<10)} {
+		reused := newP()
+		f := pack(reused, "config", &failWriter{n: k})
+		if f.err == nil {
+			rep.Count("failed-inside-deref:writer-fault:first Pack did not fail")
+			rep.AddOracle(OracleFailure{Property: "C12", Lane: "pack-spelling", What: fmt.Sprintf("Pack reported success although the writer failed after %d bytes", k), Input: map[string]interface{}{"case": c, "step": "failed-inside-dereferenced-dir", "fail_after": k}})
+			continue
+		}
+		how := fmt.Sprintf("the writer failed after %d bytes, while lib/blob.bin = ../shared/blob.bin was being copied", k)
+		judge(how, "the unchanged tree config/{a_main.tf, lib -> ../shared, z_outputs.tf} with a healthy writer", pack(reused, "config", nil), want)
+		judge(how, "another tree other/{main.tf, vendor -> ../shared} that links to the same directory", pack(reused, "other", nil), wantOther)
+	}
+	// (2) a dangling link inside the dereferenced directory; then the missing file appears
+	{
+		reused := newP()
+		f := pack(reused, "config2", nil)
+		if f.err == nil {
+			rep.Count("failed-inside-deref:dangling-link:first Pack did not fail")
+			return
+		}
+		put("shared2/generated.tf", "generated", 0644)
+		how := "the directory held the dangling link lib/zz_generated -> generated.tf; the missing file was created afterwards"
+		judge(how, "the repaired tree config2/{a_main.tf, lib -> ../shared2}", pack(reused, "config2", nil), pack(newP(), "config2", nil))
+		judge(how, "another tree other2/{main.tf, vendor -> ../shared2} that links to the same directory", pack(reused, "other2", nil), pack(newP(), "other2", nil))
 	}
 }
 
